@@ -17,7 +17,7 @@ from harness import common, prefetch, sched, tlc, tracecheck
 common.setup_repo_path()
 
 REQS = {'r1', 'r2'}
-CONSTS = dict(MaxGens=3, MaxLen=4, Prefetch=2, MaxK=3, Reqs=REQS)
+CONSTS = dict(MaxGens=3, MaxLen=6, Prefetch=2, MaxK=5, Reqs=REQS)
 
 
 def scenarios(tier):
@@ -28,6 +28,9 @@ def scenarios(tier):
         out.append(dict(name=f'one-client p{p} k{k} n{n}', prefetch=p, clients=[dict(name='r1', gen=(n, 0), k=k)]))
         for f in range(1, n + 2):
           out.append(dict(name=f'one-client p{p} k{k} n{n} fail{f}', prefetch=p, clients=[dict(name='r1', gen=(n, f), k=k)]))
+  # a batch larger than twice the prefetch size over a generator long enough to drain the queue twice within one request
+  for p, k, n in ((1, 3, 4), (1, 3, 5), (2, 5, 6)):
+    out.append(dict(name=f'one-client p{p} k{k} n{n} long', prefetch=p, clients=[dict(name='r1', gen=(n, 0), k=k)]))
   for n in (1, 2, 3):
     out.append(dict(name=f'shutdown n{n}', prefetch=1, clients=[dict(name='r1', gen=(n, 0), k=1)], shutdown=True))
     out.append(dict(name=f're-init n{n}', prefetch=1, clients=[dict(name='r1', gen=(n, 0), k=1), dict(name='r2', gen=(2, 0), k=2)]))
@@ -109,8 +112,50 @@ def foreground_shutdown(chk):
     fakecourier.BOARD.reset()
 
 
+def client_loop_part(chk):
+  """The documented client loop itself (CourierClient.async_iterate over the in-process transport, real server): the
+  elements a generator produced before it failed reach the consumer before the failure does; a clean end carries the
+  return value."""
+  import asyncio
+  import queue as _queue
+  from harness import dist, lib
+  from ml_metrics._src.chainables import lazy_fns
+  from ml_metrics._src.utils import courier_utils
+  for prefetch in (1, 2):
+    for bsz in (1, 2, 3):
+      for n, fail in ((3, 0), (3, 2), (3, 3), (4, 4), (1, 1), (5, 3)):
+        with dist.cluster(1, prefetch=prefetch, iterate_batch_size=bsz, heartbeat_threshold=1e7) as c:
+          worker = c.pool.all_workers[0]
+          got, rq = [], _queue.SimpleQueue()
+
+          async def consume():
+            task = courier_utils.GeneratorTask.new(lazy_fns.trace(lib.failing_range)(n, fail))
+            async for x in worker.async_iterate(task, generator_result_queue=rq):
+              got.append(x)
+
+          def run():
+            c.pool.wait_until_alive(deadline_secs=600)
+            asyncio.run(consume())
+            return True
+
+          status, val = dist.run_with_deadline(run, 20)
+        chk.replayed()
+        want = list(range(fail - 1 if fail else n))
+        cfg = f'client loop prefetch={prefetch} batch={bsz} generator of {n} elements' + (f' failing at its element {fail}' if fail else '')
+        ctx = dict(kind='prefetch-client-loop', prefetch=prefetch, batch=bsz, n=n, fail=fail, got=got)
+        if status == 'hung':
+          chk.violation('client-loop:hung', f'[{cfg}] no end within the deadline, received {got}', ctx)
+        elif fail and (status != 'raised' or 'generator fails' not in repr(val)):
+          chk.violation('client-loop:failure-not-delivered', f'[{cfg}] ended with {status} {val!r}, received {got}', ctx)
+        elif not fail and status != 'ok':
+          chk.violation('client-loop:unexpected-error', f'[{cfg}] {val!r}', ctx)
+        elif got != want:
+          chk.violation('client-loop:elements' + (':before-failure' if fail else ''), f'[{cfg}] received {got}, the generator produced {want}' + (' before failing' if fail else ''), ctx)
+
+
 def body(chk):
   foreground_shutdown(chk)
+  client_loop_part(chk)
   # 1. the specification itself
   mc = tlc.run('queue', 'Prefetch',
                tlc.cfg_text(constants=dict(MaxGens=2, MaxLen=2, Prefetch=1, MaxK=2, Reqs={'r1'}),
